@@ -73,7 +73,7 @@ type Specs struct {
 	Files []string
 }
 
-var clauseHead = regexp.MustCompile(`^(requires|ensures|modifies|loop|let|at|mode|event|pure|trusted|inline|noinline|nilrecv|inv|guarded_by|immutable|atomic|confined|results|tmode)\b`)
+var clauseHead = regexp.MustCompile(`^(requires|ensures|modifies|loop|let|at|mode|event|pure|trusted|inline|noinline|nilrecv|ranges|inv|guarded_by|immutable|atomic|confined|results|tmode)\b`)
 var propsRe = regexp.MustCompile(`^\[([A-Za-z0-9, ]+)\]`)
 
 func takeProps(s string) ([]string, string) {
@@ -191,8 +191,13 @@ func (sp *Specs) loadFile(path string) error {
 			if isIface {
 				fk = key
 			}
-			if _, dup := sp.Funcs[fk]; dup {
-				return fmt.Errorf("%s: duplicate contract for %s", src, fk)
+			if prev, dup := sp.Funcs[fk]; dup {
+				// a second block in ANOTHER file extends the first (clauses are appended); within one file it is an error
+				if fileOf(prev.Source) == fileOf(src) {
+					return fmt.Errorf("%s: duplicate contract for %s", src, fk)
+				}
+				cur = prev
+				continue
 			}
 			sp.Funcs[fk] = cur
 			continue
@@ -293,7 +298,7 @@ func (sp *Specs) loadFile(path string) error {
 		case "tmode":
 			cur.Tmode = true
 			last = nil
-		case "event", "pure", "trusted", "inline", "noinline", "nilrecv":
+		case "event", "pure", "trusted", "inline", "noinline", "nilrecv", "ranges":
 			cur.Flags[word] = true
 			last = nil
 		case "results":
@@ -361,10 +366,16 @@ func (sp *Specs) loadFile(path string) error {
 			cur.Loops[k] = l
 		case "at":
 			// at call <callee> assert[..] e
-			if !strings.HasPrefix(rest, "call ") {
-				return fmt.Errorf("%s: expected 'at call'", src)
+			// at store <pkg.Type.field> assert[..] e   (a store into the map held by that field; key, val, themap are bound)
+			isStore := strings.HasPrefix(rest, "store ")
+			if !strings.HasPrefix(rest, "call ") && !isStore {
+				return fmt.Errorf("%s: expected 'at call' or 'at store'", src)
 			}
-			rest = strings.TrimSpace(rest[5:])
+			if isStore {
+				rest = "store:" + strings.TrimSpace(rest[6:])
+			} else {
+				rest = strings.TrimSpace(rest[5:])
+			}
 			i := strings.Index(rest, " assert")
 			if i < 0 {
 				return fmt.Errorf("%s: at call needs assert", src)
@@ -439,4 +450,59 @@ func splitTop(s string, sep byte) []string {
 	}
 	out = append(out, s[start:])
 	return out
+}
+
+// tmodeProps: properties whose clauses are about other threads interfering.  A clause tagged with
+// these properties only is active in thread-modular mode (T-mode) only.
+var tmodeProps = map[string]bool{"C06": true}
+
+func tmodeOnly(cl *Clause) bool {
+	if len(cl.Props) == 0 {
+		return false
+	}
+	for _, p := range cl.Props {
+		if !tmodeProps[p] {
+			return false
+		}
+	}
+	return true
+}
+
+func filterClauses(cls []*Clause) []*Clause {
+	var out []*Clause
+	for _, cl := range cls {
+		if !tmodeOnly(cl) {
+			out = append(out, cl)
+		}
+	}
+	return out
+}
+
+// SView: the sequential-mode view of the contracts (T-mode-only clauses dropped).
+func (s *Specs) SView() *Specs {
+	n := &Specs{Funcs: map[string]*Contract{}, Types: map[string]*TypeSpec{}, Preds: s.Preds, Files: s.Files}
+	for k, c := range s.Funcs {
+		cc := *c
+		cc.Requires = filterClauses(c.Requires)
+		cc.Ensures = filterClauses(c.Ensures)
+		cc.AtCalls = filterClauses(c.AtCalls)
+		cc.Loops = map[int][]*Clause{}
+		for li, cls := range c.Loops {
+			cc.Loops[li] = filterClauses(cls)
+		}
+		n.Funcs[k] = &cc
+	}
+	for k, t := range s.Types {
+		tt := *t
+		tt.Invs = filterClauses(t.Invs)
+		n.Types[k] = &tt
+	}
+	return n
+}
+
+func fileOf(src string) string {
+	if i := strings.LastIndex(src, ":"); i > 0 {
+		return src[:i]
+	}
+	return src
 }
